@@ -357,6 +357,105 @@ def lexRun (cfg : LexCfg) : Nat → List Char → Nat → Nat → List Tok × Li
 /-- the token stream of a text: `lexer.input(text)`, `lineno = 1`, fuel = length of the text -/
 def lexWith (cfg : LexCfg) (text : List Char) : List Tok := (lexRun cfg text.length text 0 1).1
 
+/-! ## compiled code only: the same lexer without recomputing `regexId` at every position
+
+  `scanOf` looks the scanner of a rule up by comparing the rule's regex text with the modelled regexes.  The
+  definitions above are the ones all theorems are about; for the driver executable the two `@[csimp]` equations below
+  (proved, so the compiler may rewrite with them) replace `lexWith` by a version that computes each rule's scanner
+  key once per text, and `regexId` by a version that compares lengths before it compares texts. -/
+
+/-- which scanner a rule uses, computed once -/
+inductive ScanKey where
+  | lit (s : List Char)
+  | rx (rid : RegexId)
+
+def scanKey (r : Rule) : ScanKey :=
+  match r.lit with
+  | some s => .lit s
+  | none => .rx (regexId r.regex)
+
+def runKey : ScanKey → List Char → Option Nat
+  | .lit s => scanLit s
+  | .rx rid => scanById rid
+
+theorem scanOf_eq_runKey (r : Rule) (cs : List Char) : scanOf r cs = runKey (scanKey r) cs := by
+  unfold scanOf scanKey
+  cases r.lit <;> rfl
+
+def firstMatchK : List (Rule × ScanKey) → List Char → Option (Rule × Nat)
+  | [], _ => none
+  | (r, k) :: rs, cs =>
+    match runKey k cs with
+    | some n => if n == 0 then firstMatchK rs cs else some (r, n)
+    | none => firstMatchK rs cs
+
+theorem firstMatchK_eq (rules : List Rule) (cs : List Char) :
+    firstMatchK (rules.map fun r => (r, scanKey r)) cs = firstMatch rules cs := by
+  induction rules with
+  | nil => rfl
+  | cons r rs ih => simp only [List.map_cons, firstMatchK, firstMatch, scanOf_eq_runKey, ih]
+
+def lexRunK (cfg : LexCfg) (keys : List (Rule × ScanKey)) : Nat → List Char → Nat → Nat → List Tok × List Char
+  | 0, cs, _, _ => ([], cs)
+  | _ + 1, [], _, _ => ([], [])
+  | fuel + 1, c :: cs, off, line =>
+    if cfg.ignore.contains c then lexRunK cfg keys fuel cs (off + 1) line
+    else
+      match firstMatchK keys (c :: cs) with
+      | some (r, n) =>
+        let lexeme := (c :: cs).take n
+        let line' := if r.countsNl then line + countNl lexeme else line
+        let res := lexRunK cfg keys fuel ((c :: cs).drop n) (off + lexeme.length) line'
+        if r.returnsTok then (mkTok cfg r lexeme off line line' :: res.1, res.2) else res
+      | none => lexRunK cfg keys fuel cs (off + 1) line
+
+theorem lexRunK_eq (cfg : LexCfg) : ∀ (fuel : Nat) (cs : List Char) (off line : Nat),
+    lexRunK cfg (cfg.rules.map fun r => (r, scanKey r)) fuel cs off line = lexRun cfg fuel cs off line := by
+  intro fuel
+  induction fuel with
+  | zero => intro cs off line; rfl
+  | succ fuel ih =>
+    intro cs off line
+    cases cs with
+    | nil => rfl
+    | cons c cs => simp only [lexRunK, lexRun, firstMatchK_eq, ih]
+
+def lexWithFast (cfg : LexCfg) (text : List Char) : List Tok :=
+  (lexRunK cfg (cfg.rules.map fun r => (r, scanKey r)) text.length text 0 1).1
+
+@[csimp] theorem lexWith_eq_lexWithFast : @lexWith = @lexWithFast := by
+  funext cfg text
+  simp only [lexWith, lexWithFast, lexRunK_eq]
+
+def regexIdFast (re : List Char) : RegexId :=
+  let n := re.length
+  if n == reComment.length && re == reComment then .comment
+  else if n == reSlString.length && re == reSlString then .slString
+  else if n == reTicked.length && re == reTicked then .ticked
+  else if n == reString.length && re == reString then .string
+  else if n == reEndFor.length && re == reEndFor then .endFor
+  else if n == reEndIf.length && re == reEndIf then .endIf
+  else if n == reEndWhile.length && re == reEndWhile then .endWhile
+  else if n == reNamespace.length && re == reNamespace then .namespace_
+  else if n == reId.length && re == reId then .id
+  else if n == reFraction.length && re == reFraction then .fraction
+  else if n == reNumber.length && re == reNumber then .number
+  else if n == reNewline.length && re == reNewline then .newline
+  else .unknown
+
+theorem lenGuard (re c : List Char) : ((re.length == c.length && re == c) = true) ↔ re = c := by
+  constructor
+  · intro h
+    simp only [Bool.and_eq_true, beq_iff_eq] at h
+    exact h.2
+  · intro h
+    subst h
+    simp
+
+@[csimp] theorem regexId_eq_regexIdFast : @regexId = @regexIdFast := by
+  funext re
+  simp only [regexId, regexIdFast, lenGuard]
+
 /-! ## what the parser records for a node built from a non-empty token range (`set_positional_info`) -/
 
 def spanOf (text : List Char) (first last : Tok) : Position :=
